@@ -1916,3 +1916,151 @@ class TeeFrontUnit(IterUnit):
 
 
 UNITS += [TeeFrontUnit]
+
+
+# ---- Chain.from_iterable / chain(*iterables) ----------------------------------------------------------------------------------------
+# The outer source is an abstract source whose elements are abstract sources.  Specification (step obligation at every yield): the
+# value yielded now is element b of inner source a, and (a, b) is the successor of the position (la, lb) of the previous yield in the
+# concatenation order: either the next element of the same inner source, or element 0 of a later one with the previous inner source
+# exhausted and every inner source in between empty (the first yield: every inner source before a is empty).  At the normal end the
+# last inner source that yielded is exhausted and all later ones are empty - nothing was skipped.
+
+OUTER = DequeT(SRC)
+register_class("ChainGhost", {"la": INT, "lb": INT}, kind="env")
+CG = z3.Int("chain_ghost")
+
+
+class ChainUnit(GenUnit):
+    funcname = "Chain.from_iterable"
+
+    def __init__(self):
+        super().__init__()
+        self.name = self.qualname = "Chain.from_iterable"
+        self.globals = dict(self.globals)
+        self.globals["getattr"] = Builtin("getattr", lambda ip, o, name, default=None: self.get_aclose(ip, o, name, default))
+        self.globals["CancelScope"] = Builtin("CancelScope", lambda ip, shield=False: E.ShieldScope())
+
+    def get_aclose(self, ip, o, name, default):
+        if name != "aclose":
+            raise Unsupported("getattr of " + str(name))
+        if ip.ctx.decide(2, "outer-iterator-has-aclose") == 0:
+            return default
+
+        def aclose(ip):
+            self.closed += 1
+            return AwaitableVal("cancel_shielded_checkpoint")
+
+        return Builtin("aclose", aclose)
+
+    def model_getattr(self, ip, obj, attr):
+        if isinstance(obj, E.ShieldScope):
+            if attr == "__enter__":
+                return Builtin("scope.__enter__", lambda ip: obj)
+            if attr == "__exit__":
+                return Builtin("scope.__exit__", lambda ip, *a: False)
+        return super().model_getattr(ip, obj, attr)
+
+    # -- sources ----------------------------------------------------------------------------------------------------------------------
+    def make_args(self, ip):
+        st = ip.st
+        self.gen_entry(ip)
+        self.closed = 0
+        o = Sym(z3.Int("iterables"), OUTER)
+        h = H(st)
+        d = h.dq(OUTER.cls, o.t)
+        st.assume(z3.And(o.t > 0, st.allocated(o.t), 0 <= d.lo, d.lo <= d.hi))
+        q = z3.Int(st.uniq("q"))
+        r = z3.Select(d.data, q)
+        st.assume(forall([q], z3.Implies(z3.And(d.lo <= q, q < d.hi), z3.And(r > 0, z3.Select(h.arr("$", "alloc"), r), h.dq(SRC.cls, r).lo >= 0, h.dq(SRC.cls, r).lo <= h.dq(SRC.cls, r).hi)), patterns=[z3.Select(d.data, q)]))
+        self.outer, self.olo, self.ohi, self.odata = o, d.lo, d.hi, d.data
+        self.e_lo, self.e_hi, self.e_data = h.arr(SRC.cls, "lo"), h.arr(SRC.cls, "hi"), h.arr(SRC.cls, "data")
+        st.put("ChainGhost", "la", CG, z3.IntVal(-1))
+        st.put("ChainGhost", "lb", CG, z3.IntVal(-1))
+        st.assume(CG > 0)
+        self.src = None
+        self.lo0 = None
+        return [None, o], {}
+
+    def inner(self, a):
+        return z3.Select(self.odata, self.olo + a)
+
+    def length(self, a):
+        r = self.inner(a)
+        return z3.Select(self.e_hi, r) - z3.Select(self.e_lo, r)
+
+    def empties(self, st, p, q):
+        t = z3.Int(st.uniq("t"))
+        return forall([t], z3.Implies(z3.And(p <= t, t < q), self.length(t) == 0), patterns=[self.inner(t)])
+
+    def m(self):
+        return self.ohi - self.olo
+
+    def sources_unchanged(self, h):
+        return z3.And(h.arr(SRC.cls, "lo") == self.e_lo, h.arr(SRC.cls, "hi") == self.e_hi, h.arr(SRC.cls, "data") == self.e_data, h.dq(OUTER.cls, self.outer.t).lo == self.olo, h.dq(OUTER.cls, self.outer.t).hi == self.ohi, h.dq(OUTER.cls, self.outer.t).data == self.odata)
+
+    def between(self, st, la, lb, a):
+        """nothing lies between the previous yield (la, lb) and the start of inner source a"""
+        return z3.If(la == -1, self.empties(st, 0, a), z3.And(0 <= la, la < a, 0 <= lb, lb + 1 == self.length(la), self.empties(st, la + 1, a)))
+
+    def after_resume(self, ip, what, payload):
+        h, b = H(ip.st), self.before
+        for key in [(SRC.cls, "lo"), (SRC.cls, "hi"), (SRC.cls, "data"), (OUTER.cls, "lo"), (OUTER.cls, "hi"), (OUTER.cls, "data"), ("GenOut", "n"), ("ChainGhost", "la"), ("ChainGhost", "lb")]:
+            ip.st.assume(h.arr(*key) == b.arr(*key))
+        ip.st.assume(h.arr("$", "alloc") == b.arr("$", "alloc"))
+
+    def do_yield(self, ip, v):
+        st = ip.st
+        a = self.outer_k - self.olo
+        r = self.inner(a)
+        b = ip.ctx.loop_k - z3.Select(self.e_lo, r)
+        la, lb = st.get("ChainGhost", "la", CG), st.get("ChainGhost", "lb", CG)
+        succ = z3.Or(z3.And(la == a, b == lb + 1), z3.And(b == 0, self.between(st, la, lb, a)))
+        ip.ctx.oblige("chain/yield:every_yielded_value_is_the_next_element_in_concatenation_order", z3.And(0 <= a, a < self.m(), 0 <= b, b < self.length(a), ip.term(v, OBJ) == z3.Select(z3.Select(self.e_data, r), z3.Select(self.e_lo, r) + b), succ), "post")
+        st.put("ChainGhost", "la", CG, a)
+        st.put("ChainGhost", "lb", CG, b)
+        st.put("GenOut", "n", OUT, st.get("GenOut", "n", OUT) + 1)
+        return None
+
+    def loop_spec(self, qualname, ordinal):
+        frame = {("GenOut", "n"), ("ChainGhost", "la"), ("ChainGhost", "lb")}
+        if ordinal == 0:
+            return LoopSpec(chain_outer_inv, modifies=frame, local_types={"element_yielded": BOOL, "element": OBJ})
+        return LoopSpec(chain_inner_inv, modifies=frame, local_types={"element_yielded": BOOL, "element": OBJ})
+
+    def on_exit(self, ip, pre, exc, ret):
+        st = ip.st
+        h = H(st)
+        if exc is not None:
+            ip.ctx.oblige("chain/post:never_raises_by_itself", z3.BoolVal(exc.pycls is not None and exc.pycls.__name__ == "CancelledError"), "post")
+            return
+        la, lb = st.get("ChainGhost", "la", CG), st.get("ChainGhost", "lb", CG)
+        ip.ctx.oblige("chain/post:at_the_end_nothing_is_left_over", self.between(st, la, lb, self.m()), "post")
+        ip.ctx.oblige("chain/post:an_outer_iterator_that_can_be_closed_is_closed_once", z3.BoolVal(self.closed <= 1), "post")
+
+
+def chain_outer_inv(ip, env):
+    u = ip.ctx.unit
+    st = ip.st
+    h = H(st)
+    u.outer_k = ip.ctx.loop_k
+    a = ip.ctx.loop_k - u.olo
+    la, lb = st.get("ChainGhost", "la", CG), st.get("ChainGhost", "lb", CG)
+    ey = ip.truth(env.vars["element_yielded"])
+    ey = z3.BoolVal(ey) if isinstance(ey, bool) else ey
+    return [("everything_before_the_current_inner_source_has_been_yielded", z3.And(0 <= a, ip.ctx.loop_k <= u.ohi, la >= -1, ey == (la >= 0), u.between(st, la, lb, a), u.sources_unchanged(h)))]
+
+
+def chain_inner_inv(ip, env):
+    u = ip.ctx.unit
+    st = ip.st
+    h = H(st)
+    a = u.outer_k - u.olo
+    r = ip.term(env.vars["iterable"], SRC)
+    b = ip.ctx.loop_k - z3.Select(u.e_lo, r)
+    la, lb = st.get("ChainGhost", "la", CG), st.get("ChainGhost", "lb", CG)
+    ey = ip.truth(env.vars["element_yielded"])
+    ey = z3.BoolVal(ey) if isinstance(ey, bool) else ey
+    return [("the_current_inner_source_has_been_yielded_up_to_the_current_element", z3.And(0 <= a, a < u.m(), r == u.inner(a), 0 <= b, b <= u.length(a), la >= -1, ey == (la >= 0), z3.If(b == 0, u.between(st, la, lb, a), z3.And(la == a, lb == b - 1)), u.sources_unchanged(h)))]
+
+
+UNITS += [ChainUnit]
